@@ -674,15 +674,36 @@ def _c10(prop, tier, seed, t0):
     import glob
     traces = sorted(glob.glob(os.path.join(vlib.WORK, prop, "*.trace"))) + sorted(glob.glob(os.path.join(wd, "*.trace")))
     afails, acover, astates, atrans = async_monitor(prop, traces)
+    # conformance to the AsyncCore model is measured; a mismatch (drift) is not a violation of
+    # C10 / C11 - an implementation may need fewer filter / sort requests, for instance - but
+    # it makes the quick tier look harder: more universes under every completion order and
+    # the sampled plans at five times the size, judged by the properties' own rules
+    drift = [f for f in afails if f["rule"] in check.DRIFT_RULES]
+    afails = [f for f in afails if f["rule"] not in check.DRIFT_RULES]
     ev = json.load(open(os.path.join(vlib.EVIDENCE, f"{prop}.json")))
     fails = [f for f in vlib.first_fail_per_run(xres.fails) if check.owned_by(prop, f["rule"])]
     fails += [f for f in vlib.first_fail_per_run(afails) if check.owned_by(prop, f["rule"])]
+    deep_info = {}
+    if drift:
+        vlib.log(f"[{prop}] fetch-protocol drift against AsyncCore at {len(drift)} points "
+                 f"(first: {drift[0]['rule']} case {drift[0]['id']}): not a violation")
+        deep_info = {"asynccore_drift_points": len(drift), "asynccore_drift_first": drift[0]["rule"]}
+        if tier == "quick" and rc == 0 and not fails and not mc_viol:
+            wd2 = vlib.fresh_dir(os.path.join(vlib.WORK, prop + "x_deep"))
+            xres2, info2 = explore_schedules(prop, tier, seed + 7919, wd2, 40, 600)
+            res2 = check.run_plans_scaled(prop, check.TRACE_PLANS[prop], 5, seed + 7919, "_deep")
+            more = [f for f in vlib.first_fail_per_run(xres2.fails + res2.fails)
+                    if check.owned_by(prop, f["rule"]) and f["rule"] not in check.DRIFT_RULES]
+            fails += more
+            deep_info["deepened_after_conformance_drift"] = {"extra_runs": xres2.runs + res2.runs,
+                                                             "extra_schedules": info2.get("explored_schedules", 0)}
     c = ev["coverage"]
     c["traces_validated_against_impl"] += xres.runs
     c["evaluations"] += xres.runs
     c["distinct_nontrivial"] += xres.cover.get("quiescent2", 0)
     c["states"] += xres.states + astates + mc_info.get("asyncfetch_states", 0)
     c["transitions"] += xres.transitions + atrans + mc_info.get("asyncfetch_transitions", 0)
+    c.update(deep_info)
     c["pending_set_monitor"] = {"encodes_followed": acover.get("encode_followed", 0),
                                 "quiescent_points_compared": acover.get("pending", 0),
                                 "with_two_or_more_pending": acover.get("pending2", 0),
